@@ -314,7 +314,10 @@ def doGc (s : St) : St :=
 def doDespawnWork (s : St) : List (Nat × Bool) → St
   | [] => s
   | (e, expanded) :: work =>
-    if expanded then (despawn1 s e).push [.despawnWork work]
+    if expanded then
+      -- `World::despawn` flushes the world queue before it removes the entity
+      if s.wq.isEmpty then (despawn1 s e).push [.despawnWork work]
+      else s.push [.flush, .despawnWork ((e, true) :: work)]
     else if s.alive e then
       ({ s with children := upd s.children e [] }).push [.despawnWork ((s.children e).map (fun c => (c, false)) ++ (e, true) :: work)]
     else s.push [.despawnWork work]
